@@ -70,12 +70,20 @@ def run_aead_seq(env, sh):
             nxt = None
         data = env.bytes('d%d' % i, n)
         # arguments
+        bad = act.endswith('_bad')
+        if bad:
+            act = act[:-4]
+            nxt = AUTO[state].get(act)
+            if mode == 'ccm' and act == 'decrypt_and_verify' and state in ('ENC', 'DEC'):
+                nxt = None
         if act in ('verify', 'decrypt_and_verify'):
             # offer the tag the specification defines for what has been (will have been) processed
             m_all = msg_parts + ([data] if act == 'decrypt_and_verify' and nxt else [])
             ct_all = P.concat(*m_all) if m_all else P.const(b"")
             a_all = P.concat(*aad_parts) if aad_parts else P.const(b"")
             _, tag = _ref(P, mode, key, nonce, a_all, ct_all, True)
+            if bad:
+                tag = P.xor(tag, P.const(b"\x01" + bytes(len(tag) - 1)))
         try:
             if act == 'update':
                 r = ci.update(data)
@@ -96,9 +104,19 @@ def run_aead_seq(env, sh):
             raised = 'TypeError'
         except ValueError:
             raised = 'ValueError'
+        except Exception as e:              # e.g. an internal AssertionError escaping: never the documented behaviour
+            raised = type(e).__name__
         if nxt is None:
             env.check(raised == 'TypeError', 'step %d: %s is forbidden in state %s and raises TypeError' % (i, act, state))
             continue                       # the object must behave as if the call had not been made
+        if bad:
+            # a wrong tag is refused with ValueError, and the object is then in the 'verify only' state:
+            # nothing else may be obtained from it (in particular no digest() and no further plaintext)
+            env.check(raised == 'ValueError', 'step %d: %s with a wrong tag raises ValueError' % (i, act))
+            state = nxt
+            if act == 'decrypt_and_verify':
+                msg_parts.append(data)
+            continue
         env.check(raised is None, 'step %d: %s is permitted in state %s' % (i, act, state))
         if raised is not None:
             return
@@ -180,7 +198,211 @@ def run_classic_seq(env, sh):
         env.check(r == full[off:off + n], 'step %d: output piece == one-shot result at its position' % i)
 
 
-HARNESSES = dict(aead_seq=Harness('aead_seq', run_aead_seq), classic_seq=Harness('classic_seq', run_classic_seq))
+# ---- OCB: the final no-argument encrypt()/decrypt() is part of the protocol
+
+OCB_ACTS = ('update', 'encrypt', 'encrypt_fin', 'decrypt', 'decrypt_fin', 'digest', 'verify', 'encrypt_and_digest', 'decrypt_and_verify')
+_OCB_START = dict(update='AAD', encrypt='ENC', encrypt_fin='ENCFIN', decrypt='DEC', decrypt_fin='DECFIN', digest='DIG', verify='VER',
+                  encrypt_and_digest='DIG', decrypt_and_verify='VER')
+OCB_AUTO = {
+    'INIT': _OCB_START, 'AAD': _OCB_START,
+    'ENC': dict(encrypt='ENC', encrypt_fin='ENCFIN', encrypt_and_digest='DIG'),
+    'ENCFIN': dict(digest='DIG'),
+    'DEC': dict(decrypt='DEC', decrypt_fin='DECFIN', decrypt_and_verify='VER'),
+    'DECFIN': dict(verify='VER'),
+    'DIG': dict(digest='DIG'), 'VER': dict(verify='VER'),
+}
+
+
+def run_ocb_seq(env, sh):
+    from Crypto.Cipher import AES
+    P = env.P
+    seq = sh['seq']
+    key = env.bytes('key', 16)
+    nonce = env.bytes('nonce', 12)
+    ci = AES.new(key, AES.MODE_OCB, nonce=nonce)
+    state = 'INIT'
+    aad_parts, msg_parts, outs = [], [], []
+
+    def cat(parts):
+        return P.concat(*parts) if parts else P.const(b"")
+    for i, act in enumerate(seq):
+        bad = act.endswith('_bad')
+        if bad:
+            act = act[:-4]
+        n = LENS[i % len(LENS)]
+        nxt = OCB_AUTO[state].get(act)
+        data = env.bytes('d%d' % i, n)
+        if act in ('verify', 'decrypt_and_verify'):
+            m_all = msg_parts + ([data] if act == 'decrypt_and_verify' and nxt else [])
+            _, tag = M.ocb(P, 'AES', key, nonce, cat(aad_parts), cat(m_all), 16, True)
+            if bad:
+                tag = P.xor(tag, P.const(b"\x01" + bytes(15)))
+        try:
+            if act == 'update':
+                r = ci.update(data)
+            elif act == 'encrypt':
+                r = ci.encrypt(data)
+            elif act == 'encrypt_fin':
+                r = ci.encrypt()
+            elif act == 'decrypt':
+                r = ci.decrypt(data)
+            elif act == 'decrypt_fin':
+                r = ci.decrypt()
+            elif act == 'digest':
+                r = ci.digest()
+            elif act == 'verify':
+                r = ci.verify(tag)
+            elif act == 'encrypt_and_digest':
+                r = ci.encrypt_and_digest(data)
+            else:
+                r = ci.decrypt_and_verify(data, tag)
+            raised = None
+        except TypeError:
+            raised = 'TypeError'
+        except ValueError:
+            raised = 'ValueError'
+        except Exception as e:              # e.g. an internal AssertionError escaping: never the documented behaviour
+            raised = type(e).__name__
+        if nxt is None:
+            env.check(raised == 'TypeError', 'step %d: %s is forbidden in state %s and raises TypeError' % (i, act, state))
+            continue
+        if bad:
+            env.check(raised == 'ValueError', 'step %d: %s with a wrong tag raises ValueError' % (i, act))
+            state = nxt
+            if act == 'decrypt_and_verify':
+                msg_parts.append(data)
+            continue
+        env.check(raised is None, 'step %d: %s is permitted in state %s' % (i, act, state))
+        if raised is not None:
+            return
+        state = nxt
+        if act == 'update':
+            aad_parts.append(data)
+            continue
+        dec = act.startswith('decrypt')
+        if act in ('encrypt', 'decrypt', 'encrypt_and_digest', 'decrypt_and_verify'):
+            msg_parts.append(data)
+        if act in ('encrypt', 'decrypt', 'encrypt_fin', 'decrypt_fin', 'encrypt_and_digest', 'decrypt_and_verify'):
+            piece = r[0] if act == 'encrypt_and_digest' else r
+            outs.append(piece)
+            full, tagE = M.ocb(P, 'AES', key, nonce, cat(aad_parts), cat(msg_parts), 16, dec)
+            got = cat(outs)
+            final = act in ('encrypt_fin', 'decrypt_fin', 'encrypt_and_digest', 'decrypt_and_verify')
+            if final:
+                env.check(len(got) == len(full) and got == full, 'step %d: all output pieces together == one-shot result' % i)
+            else:
+                total = sum(len(x) for x in msg_parts)
+                env.check(len(got) == 16 * (total // 16) and got == full[:len(got)],
+                          'step %d: the complete blocks returned so far == the one-shot result at their position' % i)
+            if act == 'encrypt_and_digest':
+                env.check(r[1] == tagE, 'step %d: tag == one-shot tag' % i)
+        elif act == 'digest':
+            _, tagE = M.ocb(P, 'AES', key, nonce, cat(aad_parts), cat(msg_parts), 16, False)
+            env.check(r == tagE, 'step %d: digest() == one-shot tag (idempotent)' % i)
+
+
+# ---- CCM with declared lengths: pieces are counted against the declaration
+
+def run_ccm_declared(env, sh):
+    from Crypto.Cipher import AES
+    P = env.P
+    A, Mlen, seq = sh['assoc_len'], sh['msg_len'], sh['seq']
+    key = env.bytes('key', 16)
+    nonce = env.bytes('nonce', 12)
+    ci = AES.new(key, AES.MODE_CCM, nonce=nonce, assoc_len=A, msg_len=Mlen)
+    a_done, m_done = 0, 0
+    phase = 'A'                     # A: associated data, E / D: message, T: tag obtained / checked
+    aad_parts, msg_parts = [], []
+
+    def cat(parts):
+        return P.concat(*parts) if parts else P.const(b"")
+    for i, (act, n) in enumerate(seq):
+        data = env.bytes('d%d' % i, n)
+        if act == 'verify':
+            _, tag = M.ccm(P, 'AES', key, nonce, cat(aad_parts), cat(msg_parts), 16, True)
+        try:
+            if act == 'update':
+                r = ci.update(data)
+            elif act == 'encrypt':
+                r = ci.encrypt(data)
+            elif act == 'decrypt':
+                r = ci.decrypt(data)
+            elif act == 'digest':
+                r = ci.digest()
+            else:
+                r = ci.verify(tag)
+            raised = None
+        except TypeError:
+            raised = 'TypeError'
+        except ValueError:
+            raised = 'ValueError'
+        except Exception as e:              # e.g. an internal AssertionError escaping: never the documented behaviour
+            raised = type(e).__name__
+        # oracle
+        if act == 'update':
+            if phase != 'A':
+                exp = 'TypeError'
+            elif a_done + n > A:
+                exp = 'ValueError'
+            else:
+                exp = None
+        elif act in ('encrypt', 'decrypt'):
+            want = 'E' if act == 'encrypt' else 'D'
+            if phase not in ('A', want):
+                exp = 'TypeError'
+            elif a_done < A:
+                exp = 'ValueError'          # associated data too short
+            elif m_done + n > Mlen:
+                exp = 'ValueError'          # more than declared
+            else:
+                exp = None
+        else:
+            want = 'E' if act == 'digest' else 'D'
+            tphase = 'TE' if act == 'digest' else 'TD'
+            if phase not in ('A', want, tphase):
+                exp = 'TypeError'
+            elif a_done < A or m_done < Mlen:
+                exp = 'ValueError'          # declared data not complete
+            else:
+                exp = None
+        env.check(raised == exp, 'step %d: %s(%d) after %d/%d AAD and %d/%d message bytes %s' %
+                  (i, act, n, a_done, A, m_done, Mlen, 'raises ' + exp if exp else 'is accepted'))
+        if raised != exp:
+            return
+        if exp == 'ValueError':
+            # a refused call (too much / too little data) must not have consumed anything that a correct
+            # continuation depends on: the harness stops the sequence here (behaviour after such errors is
+            # not specified by the documentation)
+            return
+        if exp is not None:
+            continue
+        if act == 'update':
+            a_done += n
+            aad_parts.append(data)
+        elif act in ('encrypt', 'decrypt'):
+            phase = 'E' if act == 'encrypt' else 'D'
+            off = m_done
+            m_done += n
+            msg_parts.append(data)
+            if m_done == Mlen:
+                full, _ = M.ccm(P, 'AES', key, nonce, cat(aad_parts), cat(msg_parts), 16, act == 'decrypt')
+                env.check(r == full[off:off + n], 'step %d: piece == one-shot result at its position' % i)
+            else:
+                # CTR keystream position only (the reference needs the complete message for B_0): compare with
+                # the one-shot result on a padded message of the declared length
+                pad = env.P.const(bytes(Mlen - m_done))
+                full, _ = M.ccm(P, 'AES', key, nonce, cat(aad_parts), P.concat(*(msg_parts + [pad])), 16, act == 'decrypt')
+                env.check(r == full[off:off + n], 'step %d: piece == one-shot result at its position' % i)
+        elif act == 'digest':
+            phase = 'TE'
+            _, tagE = M.ccm(P, 'AES', key, nonce, cat(aad_parts), cat(msg_parts), 16, False)
+            env.check(r == tagE, 'step %d: digest() == one-shot tag' % i)
+        else:
+            phase = 'TD'
+
+
+HARNESSES = dict(aead_seq=Harness('aead_seq', run_aead_seq), classic_seq=Harness('classic_seq', run_classic_seq),
+                 ocb_seq=Harness('ocb_seq', run_ocb_seq), ccm_declared=Harness('ccm_declared', run_ccm_declared))
 
 
 def shapes(tier):
@@ -201,6 +423,41 @@ def shapes(tier):
                         ('decrypt', 'digest', 'decrypt', 'verify', 'decrypt'), ('update', 'encrypt_and_digest', 'encrypt', 'digest'),
                         ('decrypt_and_verify', 'verify', 'decrypt', 'update'), ('digest', 'update', 'encrypt', 'digest')):
                 jobs.append(('aead_seq', dict(mode=mode, seq=list(seq))))
+    # wrong tags: after a refused verify() / decrypt_and_verify() only verify() remains possible
+    for mode in ('gcm', 'eax', 'ccm', 'chacha'):
+        for pre in ((), ('update',), ('decrypt',), ('update', 'decrypt')):
+            for badact in ('verify_bad', 'decrypt_and_verify_bad'):
+                for post in [(a,) for a in ACTS] + ([(a, b) for a in ACTS for b in ('digest', 'decrypt', 'verify')] if th else [('verify', 'decrypt'), ('digest', 'digest')]):
+                    jobs.append(('aead_seq', dict(mode=mode, seq=list(pre) + [badact] + list(post))))
+    # OCB (explicit final calls)
+    for d in range(1, (4 if th else 3) + 1):
+        for seq in itertools.product(OCB_ACTS, repeat=d):
+            if d == 4 and seq[0] not in ('update', 'encrypt', 'decrypt'):
+                continue
+            jobs.append(('ocb_seq', dict(seq=list(seq))))
+    for pre in (('decrypt',), ('decrypt', 'decrypt_fin'), ('update', 'decrypt', 'decrypt_fin')):
+        for badact in ('verify_bad', 'decrypt_and_verify_bad'):
+            for post in OCB_ACTS:
+                jobs.append(('ocb_seq', dict(seq=list(pre) + [badact, post])))
+    for seq in (('update', 'update', 'encrypt', 'encrypt', 'encrypt_fin', 'digest'), ('decrypt', 'decrypt', 'decrypt', 'decrypt_fin', 'verify', 'verify'),
+                ('update', 'encrypt', 'encrypt', 'encrypt', 'encrypt', 'encrypt_fin'), ('encrypt', 'encrypt', 'encrypt_and_digest', 'digest')):
+        jobs.append(('ocb_seq', dict(seq=list(seq))))
+    # CCM with declared lengths
+    for A, Ml in ((3, 32), (0, 17)) if not th else ((3, 32), (0, 17), (16, 0), (2, 33)):
+        acts = [('update', 1), ('update', 2), ('encrypt', 16), ('encrypt', Ml - 16), ('encrypt', 17), ('decrypt', 16), ('decrypt', Ml - 16),
+                ('decrypt', 17), ('digest', 0), ('verify', 0)]
+        base = sorted(set(a for a in acts if a[1] >= 0))
+        if th:
+            acts += [('update', 0), ('update', A), ('encrypt', 0), ('encrypt', Ml), ('decrypt', Ml)]
+        acts = sorted(set(a for a in acts if a[1] >= 0))
+        for d in range(1, 4):
+            for seq in itertools.product(acts, repeat=d):
+                jobs.append(('ccm_declared', dict(assoc_len=A, msg_len=Ml, seq=[list(x) for x in seq])))
+        if th and (A, Ml) in ((3, 32), (0, 17)):
+            for seq in itertools.product(base, repeat=4):
+                if seq[0][0] in ('digest', 'verify'):
+                    continue
+                jobs.append(('ccm_declared', dict(assoc_len=A, msg_len=Ml, seq=[list(x) for x in seq])))
     for mode in ('cbc', 'cfb', 'ofb', 'ctr', 'chacha20'):
         for d in range(1, (5 if th else 4)):
             for seq in itertools.product(('encrypt', 'decrypt'), repeat=d):
@@ -210,8 +467,11 @@ def shapes(tier):
 
 BOUNDS = dict(depth="AEAD: every call sequence up to depth 3 (quick; GCM 4) / 4 (thorough; GCM 5) over 7 methods; classic modes and ChaCha20: "
               "every encrypt/decrypt sequence up to depth 3 / 4; argument lengths cycle through 1, 16, 17, 0",
-              outside=["deeper histories (no abstraction-soundness argument is offered)", "SIV, OCB and CCM with declared lengths (being added)",
-                       "hash / XOF / MAC objects (being added)"])
+              ocb="OCB: every sequence up to depth 3 (thorough 4) over 9 methods incl. the final no-argument encrypt()/decrypt()",
+              ccm_declared="CCM with assoc_len/msg_len declared: every sequence up to depth 3 (thorough 4) over 10..15 (method, length) pairs around the declared lengths",
+              bad_tags="after a wrong tag: every single follow-up call (thorough: every pair)",
+              outside=["deeper histories (no abstraction-soundness argument is offered)", "SIV", "hash / XOF / MAC objects (their streaming behaviour is C09)",
+                       "behaviour after a ValueError for too much / too little declared CCM data (the sequence stops there)"])
 ASSUMPTIONS = ["primitives uninterpreted as in C01", "verify()/decrypt_and_verify() are offered the specification tag for the data processed so far"]
 EXPLANATION = ("bounded model checking of call histories: every method sequence up to the depth bound is executed symbolically on the "
                "real object (all data bytes solver variables) against the documented life-cycle automaton and the one-shot reference")
